@@ -68,9 +68,12 @@ func run(c *core.Ctx) {
 	}
 	LoaderRules(c)
 	KeyExistsRules(c)
+	FirstPieceRules(c)
 	c.Expect("R7.key-exists", 2)
+	c.Expect("R7.first-piece", 1)
 	c.Expect("R1.private", 4)
 	c.Expect("R2.pair", 2)
+	c.Expect("R2.every-entry", 4)
 	c.Expect("R2.reach", 2)
 	c.Expect("R3.done", 2)
 	c.Expect("R3.close-after-wait", 2)
@@ -260,6 +263,7 @@ func worker(c *core.Ctx, fn *core.Fn, short string, w *ast.FuncLit, rs *ast.Rang
 		"the connection variable must be declared inside the worker literal: workers sharing one connection interleave SELECT/RESTORE, so a key is restored into the database another worker selected")
 	selectTracking(c, fn, short, w, rs, g, conn, entry, restores, parallel)
 	completion(c, fn, short, w, g, goStmt, spawnLoop, encl)
+	everyEntry(c, short, info, g, rs, head, bodyBlk, entry)
 	// ---- R4
 	var marks []types.Object
 	spec := ErrSpec{Rule: "R4.error", Mark: func(n ast.Node, err types.Object) bool {
